@@ -454,6 +454,17 @@ fn messages(thorough: bool) -> Vec<M> {
         }
     }
     v.push(M::ClientHello { version: 0x0303, random: rnd(1), sid: None, ciphers: vec![1], comps: vec![0], ext: Some(vec![0xee; 65535]) });
+    for (i, block) in cat::extension_blocks().into_iter().enumerate() {
+        if i % 3 == 0 {
+            v.push(M::ClientHello { version: 0x0303, random: rnd(2), sid: None, ciphers: vec![0x1301], comps: vec![0], ext: Some(block.clone()) });
+        }
+        if i % 3 == 1 {
+            v.push(M::ServerHello { version: 0x0303, random: rnd(3), sid: Some(vec![1; 32]), cipher: 0x1301, comp: 0, ext: Some(block.clone()) });
+        }
+        if i % 3 == 2 {
+            v.push(M::ServerHello13 { random: rnd(4), cipher: 0x1301, ext: Some(block) });
+        }
+    }
     for version in [0x0300u16, 0x0301, 0x0302, 0x0303] {
         for sid in sids() {
             for ext in exts() {
@@ -671,6 +682,16 @@ fn ext_lists(thorough: bool) -> Vec<Vec<E>> {
     ];
     for x in 0..=255u32 {
         singles.push(E::Mfl(x as u8));
+    }
+    // host names of every text shape (what goes in must come out: no normalisation)
+    for t in cat::text_patterns() {
+        singles.push(E::Sni(vec![(0, t.clone())]));
+        singles.push(E::Sni(vec![(1, t.clone()), (0, t)]));
+    }
+    for fill in [0x00u8, 0x2e, 0x20, 0x41, 0x61, 0xff] {
+        for n in [1usize, 2, 255, 256] {
+            singles.push(E::Sni(vec![(0, vec![fill; n])]));
+        }
     }
     let gstep = if thorough { 1 } else { 5 };
     for g in (0..=65535u32).step_by(gstep) {
